@@ -65,7 +65,7 @@ def valid_norm(vv):
         if isinstance(v, range):
             if v.step != 1:
                 bad = True
-            elif len(v):
+            elif v.start < v.stop:
                 ivs.append((v.start, v.stop - 1))
         elif isinstance(v, NamedRange):
             if v._start < v._end:
@@ -100,7 +100,39 @@ def valid_norm(vv):
     return ("?" if bad else "") + ",".join(str(lo) if lo == hi else f"{lo}..{hi}" for lo, hi in out)
 
 
+def _msg_problem(e, fields):
+    """does the error's message (what the printers show for a warning, what the command line prints for an error) state the
+    same paths and numbers as the error's fields?  `fields`: the expected tokens in order of appearance.  Returns '' if so."""
+    msg = str(e)
+    toks = _re.findall(r"(?<![\w.])(\.[\w\[\].]*|-?\d+)(?![\w])", msg.split(" not in ")[0])
+    want = [str(f) for f in fields]
+    # every expected token must occur, in order (the message may contain more, e.g. the hexadecimal form of a value)
+    i = 0
+    for t in toks:
+        if i < len(want) and t == want[i]:
+            i += 1
+    return "" if i == len(want) else f" msg=bad({msg[:120]})"
+
+
 def err_str(e):
+    s = _err_str(e)
+    try:
+        c = getattr(e, "constraint", None)
+        if isinstance(e, ValueConstraintViolatedError):
+            s += _msg_problem(e, [path_str(c.constraint_path)] + ([] if e.value is None else [int(e.value)])) if path_str(c.constraint_path) != "." else ""
+        elif isinstance(e, SizeConstraintExceededError):
+            s += _msg_problem(e, [path_str(c.constraint_path), int(c.size_max), int(c.size_already), path_str(e.violator_path), int(e.exceeded_by)])
+        elif isinstance(e, SizeConstraintSubceededError):
+            s += _msg_problem(e, [path_str(c.constraint_path), int(c.size_max), int(c.size_already)])
+        elif isinstance(e, AnticipatedSizeConstraintExceededError):
+            s += _msg_problem(e, [path_str(c.constraint_path), int(c.size_max), int(c.size_already), path_str(e.violator_path),
+                                  int(e.violator_value), int(e.exceeded_by)])
+    except Exception as x:  # noqa
+        s += f" msg=bad(unreadable: {type(x).__name__})"
+    return s
+
+
+def _err_str(e):
     if isinstance(e, ValueConstraintViolatedError):
         c = e.constraint
         return (f"ValueConstraintViolatedError path={path_str(c.constraint_path)} type={c.tpm_type.__name__} "
@@ -151,7 +183,9 @@ def event_line(ev, pulls):
         else:
             v, c = str(int(ev.value)), type(ev.value).__name__
         return f"M {pulls} {path_str(ev.path)} {type_str(ev.type)} {v} {c}"
-    return f"W {pulls} {err_str(ev.error)}"
+    # problems are delivered as WarningEvents; any other event class is shown as such
+    kind = "W" if type(ev).__name__ == "WarningEvent" else f"W?{type(ev).__name__}"
+    return f"{kind} {pulls} {err_str(ev.error) if hasattr(ev, 'error') else '?no-error-attribute'}"
 
 
 def cc_str(cc):
